@@ -58,7 +58,7 @@ def gen(tier, seed, shard, nshards):
     sidx = 0
     for pp in (6, 7, 8, 9, 10):
         for name in sorted(gmat.named_shapes(pp)):
-            for rep in range(2):
+            for rep in range(4 if name.startswith("chain-") else 2):      # label-dependent effects: several relabellings of the path shapes
                 if sidx % nshards == shard:
                     yield "shape-dag", {"p": pp, "shape": name, "rep": rep}
                 sidx += 1
